@@ -36,7 +36,7 @@ def run(ctx):
     rng = random.Random(ctx.seed)
     tabs = []
     if q:
-        tabs += displib.gen_tables(ctx, 80, 3, dict(black=1, rw=2, agg=2, routes=4, dests=3), [3, 6, 9, 12], ctx.seed, "genA")
+        tabs += displib.gen_tables(ctx, 120, 3, dict(black=1, rw=2, agg=2, routes=4, dests=3), [3, 6, 9, 12], ctx.seed, "genA")
     else:
         tabs += displib.gen_tables(ctx, 1000, 4, dict(black=1, rw=2, agg=1, routes=4, dests=3), [3, 6, 9, 12, 15], ctx.seed, "genA")
         tabs += displib.gen_tables(ctx, 600, 4, dict(black=2, rw=2, agg=2, routes=4, dests=3), [5, 10, 14], 1000 + ctx.seed, "genB")
@@ -83,7 +83,7 @@ def run(ctx):
     if nd == 0 and not crashed:
         raise Machinery("dead driver: no dispatch events")
     for f in ("routed", "unroutable", "blacklisted", "consumed", "invalid"):
-        if not crashed and fates.get(f, 0) == 0:
+        if not crashed and not ctx.violations and fates.get(f, 0) == 0:
             raise Machinery("vacuous coverage: no generated line with fate %s" % f)
     kinds = {}
     for c in cases:
